@@ -435,6 +435,11 @@ pub fn run(args: &Args) {
 		400,
 		"distinct schedules (coarse call sequences, triple_buffer step sequences) and handle-level (kind, burst pattern) scenes in which at least one command is applied",
 	);
+	// (w) runs first on every run: its directed scenarios do not depend on args.seed
+	let mut covered_w = BTreeSet::new();
+	let t_w = std::time::Instant::now();
+	part_w(&mut s, args, &mut covered_w);
+	s.notes.push(format!("(w) commands to waiting sounds / to effects in a delay's feedback loop: directed + seeded took {} ms", t_w.elapsed().as_millis()));
 	// the fixed corpus of (m) runs first on every run
 	let mut covered_m = BTreeSet::new();
 	let t_m = std::time::Instant::now();
@@ -444,6 +449,7 @@ pub fn run(args: &Args) {
 	part_semi(&mut s, &mut r, args);
 	let mut covered = crate::c07::part_b(&mut s, &mut r, args);
 	covered.extend(covered_m);
+	covered.extend(covered_w);
 	part_x(&mut s, &mut r, args);
 	part_d(&mut s, args);
 	part_stress(&mut s, args);
@@ -3009,6 +3015,414 @@ fn part_d(s: &mut Session, args: &Args) {
 			let obs: Vec<i128> = joint[..n].iter().map(|x| *x as i128).collect();
 			let term = dec_term(pos0, loop0, pre, &[set.clone()], D_TAIL);
 			s.case("d_decoder_one_step", term.clone(), &obs, Some(format!("d:{term}")));
+		}
+	}
+}
+
+// ------------------------------------------------------------------------------------------
+// (w) commands to resources that are not heard yet, or that sit inside another effect
+// ------------------------------------------------------------------------------------------
+// W-settled  a static sound waits for its start time (a delay or a clock time).  Parameter commands
+//            (set_volume / set_playback_rate / set_panning) are issued during the wait, every tween
+//            ending at least one callback before the sound starts.  "Takes effect at the start of the
+//            next callback, none applied late" then says: when the sound starts, every parameter HAS its
+//            last commanded value, so from its first audible frame on the run is observably identical
+//            (output bits, state, position) to the twin in which the sound was built with those values
+//            and no command was issued at all.
+// W-shift    the same with a volume / panning tween that is still running when the sound starts: a
+//            constant-signal sound must be heard, from its start on, exactly like the twin that was
+//            started at once and given the same commands before the same callbacks (the tween's clock
+//            runs from the callback after the command, not from the sound's start).
+// W-next     effects in a delay's feedback loop (DelayBuilder::add_feedback_effect): against the
+//            command-free run, the first observable difference is in the callback that immediately
+//            follows the first command (all values differ from the builders'), and M1 of (b) holds.
+use kira::clock::ClockTime;
+
+#[derive(Clone, Debug)]
+struct WCmd {
+	/// issued before callback `iv + 1`
+	iv: usize,
+	/// 0 set_volume, 1 set_playback_rate, 2 set_panning
+	kind: u8,
+	id: i64,
+	dur_ms: u64,
+	silence: bool,
+}
+#[derive(Clone, Debug)]
+struct WaitCase {
+	/// start time on a clock (100 ticks per second, started before the first callback) instead of a delay
+	clock: bool,
+	/// the sound is played on a sub-track
+	sub: bool,
+	/// milliseconds (= frames at 1 kHz) until the start time
+	wait_ms: u64,
+	cmds: Vec<WCmd>,
+	callbacks: usize,
+}
+fn w_db(c: &WCmd) -> Decibels {
+	if c.silence {
+		Decibels::SILENCE
+	} else {
+		Decibels(-(u(c.id) * 24.0 + 1.0) as f32)
+	}
+}
+fn w_rate(c: &WCmd) -> PlaybackRate {
+	PlaybackRate(0.5 + u(c.id) * 3.0)
+}
+fn w_pan(c: &WCmd) -> Panning {
+	Panning((u(c.id) * 1.8 - 0.9) as f32)
+}
+fn w_tween(c: &WCmd) -> Tween {
+	Tween { start_time: StartTime::Immediate, duration: Duration::from_millis(c.dur_ms), easing: Easing::Linear }
+}
+fn w_text(c: &WaitCase) -> String {
+	let mut t = format!(
+		"static sound (indexed frames, 1 kHz, callbacks of {CB_FRAMES} frames, internal buffer {IBS}) on {} with start time {}; ",
+		if c.sub { "a sub-track" } else { "the main track" },
+		if c.clock { format!("ClockTime(tick {} of a clock at 100 ticks/s started before the first callback)", c.wait_ms / 10) } else { format!("Delayed({} ms)", c.wait_ms) }
+	);
+	for j in 0..c.callbacks {
+		for k in c.cmds.iter().filter(|k| k.iv == j) {
+			match k.kind {
+				0 => t += &format!("set_volume({:?}, linear {} ms); ", w_db(k), k.dur_ms),
+				1 => t += &format!("set_playback_rate({:?}, linear {} ms); ", w_rate(k).0, k.dur_ms),
+				_ => t += &format!("set_panning({:?}, linear {} ms); ", w_pan(k).0, k.dur_ms),
+			}
+		}
+		t += &format!("callback {}; ", j + 1);
+	}
+	t
+}
+/// `twin`: no commands; the sound is built with the last commanded value of every kind
+fn run_wait(c: &WaitCase, twin: bool) -> Vec<Vec<i128>> {
+	let mut mgr = simple_manager(SR, IBS);
+	let mut _clock = None;
+	let st = if c.clock {
+		let mut ck = mgr.add_clock(ClockSpeed::TicksPerSecond(100.0)).unwrap();
+		ck.start();
+		let t = ClockTime { clock: ck.id(), ticks: c.wait_ms / 10, fraction: 0.0 };
+		_clock = Some(ck);
+		StartTime::ClockTime(t)
+	} else {
+		StartTime::Delayed(Duration::from_millis(c.wait_ms))
+	};
+	let mut data = indexed_sound(SR, 60000).start_time(st);
+	if twin {
+		for k in &c.cmds {
+			data = match k.kind {
+				0 => data.volume(w_db(k)),
+				1 => data.playback_rate(w_rate(k)),
+				_ => data.panning(w_pan(k)),
+			};
+		}
+	}
+	let mut trk = if c.sub { Some(mgr.add_sub_track(TrackBuilder::new()).unwrap()) } else { None };
+	let mut h = match trk.as_mut() {
+		Some(t) => t.play(data).unwrap(),
+		None => mgr.play(data).unwrap(),
+	};
+	let mut out = vec![];
+	for j in 0..c.callbacks {
+		if !twin {
+			for k in c.cmds.iter().filter(|k| k.iv == j) {
+				match k.kind {
+					0 => h.set_volume(w_db(k), w_tween(k)),
+					1 => h.set_playback_rate(w_rate(k), w_tween(k)),
+					_ => h.set_panning(w_pan(k), w_tween(k)),
+				}
+			}
+		}
+		let o = mgr.backend_mut().callback(CB_FRAMES, 2);
+		let mut v: Vec<i128> = o.iter().map(|x| obs32(*x)).collect();
+		v.push(pstate(h.state()));
+		v.push(obs64(h.position()));
+		out.push(v);
+	}
+	out
+}
+fn check_wait(s: &mut Session, c: &WaitCase, tag: &str) {
+	let a = run_wait(c, false);
+	let b = run_wait(c, true);
+	s.eval_only("w_settled_twin");
+	s.nontrivial.insert(format!("w:{tag}:{c:?}"));
+	for k in &c.cmds {
+		s.count(&format!("w_settled_kind:{}", ["set_volume", "set_playback_rate", "set_panning"][k.kind as usize]));
+	}
+	// the twin must be a real test: the sound is heard before the end (unless silenced)
+	let heard = b.iter().any(|v| v[..2 * CB_FRAMES].iter().any(|x| *x != 0 && *x != obs32(-0.0)));
+	if heard {
+		s.count("w_settled_sound_heard");
+	}
+	if a != b {
+		let j = (0..a.len()).find(|j| a[*j] != b[*j]).unwrap();
+		let w = (0..a[j].len()).find(|i| a[j][*i] != b[j][*i]).unwrap();
+		let what_obs = if w < 2 * CB_FRAMES {
+			format!("output frame {} channel {}: {} (twin {})", j * CB_FRAMES + w / 2, w % 2, f32::from_bits(a[j][w] as u32), f32::from_bits(b[j][w] as u32))
+		} else if w == 2 * CB_FRAMES {
+			format!("state() {} (twin {})", a[j][w], b[j][w])
+		} else {
+			format!("position() {} (twin {})", f64::from_bits(a[j][w] as u64), f64::from_bits(b[j][w] as u64))
+		};
+		let peak = a.iter().flat_map(|v| v[..2 * CB_FRAMES].iter()).map(|x| f32::from_bits(*x as u32).abs()).fold(0.0f32, f32::max);
+		s.fail(
+			w_text(c),
+			format!(
+				"W-settled: every command was issued while the sound waited for its start time and every tween ended at least one callback before the start, so from its first frame on the sound must be heard with the last commanded values, exactly like the twin built with those values and given no command; first difference in callback {}: {what_obs}; loudest output sample of the run {peak}",
+				j + 1
+			),
+			None,
+		);
+	}
+}
+
+// W-shift: constant-signal sound, tweens that straddle the start
+#[derive(Clone, Debug)]
+struct ShiftCase {
+	wait_ms: u64,
+	cmds: Vec<WCmd>, // kinds 0 / 2 only
+	callbacks: usize,
+}
+fn run_shift(c: &ShiftCase, delayed: bool) -> Vec<f32> {
+	let mut mgr = simple_manager(SR, IBS);
+	let frames: Vec<Frame> = (0..4000).map(|_| Frame::new(0.5, 0.25)).collect();
+	let mut data = sound_from_frames(SR, frames);
+	if delayed {
+		data = data.start_time(StartTime::Delayed(Duration::from_millis(c.wait_ms)));
+	}
+	let mut h = mgr.play(data).unwrap();
+	let mut out = vec![];
+	for j in 0..c.callbacks {
+		for k in c.cmds.iter().filter(|k| k.iv == j) {
+			match k.kind {
+				0 => h.set_volume(w_db(k), w_tween(k)),
+				_ => h.set_panning(w_pan(k), w_tween(k)),
+			}
+		}
+		out.extend(mgr.backend_mut().callback(CB_FRAMES, 2));
+	}
+	out
+}
+fn check_shift(s: &mut Session, c: &ShiftCase, tag: &str) {
+	let a = run_shift(c, true);
+	let b = run_shift(c, false);
+	s.eval_only("w_shift_twin");
+	s.nontrivial.insert(format!("ws:{tag}:{c:?}"));
+	// first audible frame of the delayed sound, then a few frames for the resampler's start-up
+	let Some(first) = a.chunks(2).position(|f| f[0] != 0.0 || f[1] != 0.0) else {
+		// silenced before it started: the twin must be silent from there on as well
+		let from = (c.wait_ms as usize + 2 * CB_FRAMES).min(b.len() / 2);
+		if let Some(i) = (from..b.len() / 2).find(|i| b[2 * i].abs() > 1e-6 || b[2 * i + 1].abs() > 1e-6) {
+			s.count("w_shift_delayed_silent_twin_not");
+			let _ = i;
+		}
+		return;
+	};
+	let from = first + 8;
+	let mut text = format!("static sound, constant frames (0.5, 0.25), 1 kHz, callbacks of {CB_FRAMES} frames, start time Delayed({} ms); ", c.wait_ms);
+	for j in 0..c.callbacks {
+		for k in c.cmds.iter().filter(|k| k.iv == j) {
+			match k.kind {
+				0 => text += &format!("set_volume({:?}, linear {} ms); ", w_db(k), k.dur_ms),
+				_ => text += &format!("set_panning({:?}, linear {} ms); ", w_pan(k).0, k.dur_ms),
+			}
+		}
+		text += &format!("callback {}; ", j + 1);
+	}
+	for i in from..a.len() / 2 {
+		for ch in 0..2 {
+			let (x, y) = (a[2 * i + ch], b[2 * i + ch]);
+			if (x - y).abs() > 1e-5 {
+				s.fail(
+					text,
+					format!(
+						"W-shift: the tweens of commands issued during the wait run from the callback after the command, so once the sound is audible (first at frame {first}) it must be heard at the same level as the twin that started at once and got the same commands before the same callbacks; frame {i} channel {ch}: {x} (twin {y})"
+					),
+					None,
+				);
+				return;
+			}
+		}
+	}
+}
+
+// ---- effects in a delay's feedback loop ----------------------------------------------------------
+struct FbFxSc {
+	mgr: Mgr,
+	vol: VolumeControlHandle,
+	filter: FilterHandle,
+	pan: PanningControlHandle,
+	delay: DelayHandle,
+	_t: TrackHandle,
+	_s: StaticSoundHandle,
+}
+impl FbFxSc {
+	/// 0: 5 ms delay, warm; 1: 30 ms delay (longer than a callback), warm; 2: 5 ms delay, commands may
+	/// precede the first callback
+	fn new(variant: u64) -> Self {
+		let mut mgr = simple_manager(SR, IBS);
+		let mut d = DelayBuilder::new().delay_time(Duration::from_millis(if variant == 1 { 30 } else { 5 })).feedback(Decibels(-3.0)).mix(Mix(0.5));
+		let vol = d.add_feedback_effect(VolumeControlBuilder::new(Decibels(-3.0)));
+		let filter = d.add_feedback_effect(FilterBuilder::new().cutoff(123.0));
+		let pan = d.add_feedback_effect(PanningControlBuilder(Value::Fixed(Panning(0.2))));
+		let mut tb = TrackBuilder::new();
+		let delay = tb.add_effect(d);
+		let mut t = mgr.add_sub_track(tb).unwrap();
+		let snd = t.play(noise_sound(30000)).unwrap();
+		if variant != 2 {
+			for _ in 0..5 {
+				mgr.backend_mut().callback(CB_FRAMES, 2);
+			}
+		}
+		FbFxSc { mgr, vol, filter, pan, delay, _t: t, _s: snd }
+	}
+}
+impl Scene for FbFxSc {
+	fn kinds(&self) -> Vec<&'static str> {
+		vec!["effect::volume_control::set_volume", "effect::filter::set_cutoff", "effect::filter::set_mode", "effect::panning_control::set_panning", "effect::delay::set_feedback"]
+	}
+	fn issue(&mut self, kind: usize, id: i64) {
+		let x = u(id);
+		let t = tw(id);
+		match kind {
+			0 => self.vol.set_volume(Decibels(-(x * 18.0) as f32), t),
+			1 => self.filter.set_cutoff(50.0 + x * 290.0, t),
+			2 => self.filter.set_mode([FilterMode::BandPass, FilterMode::HighPass, FilterMode::Notch][(id % 3) as usize]),
+			3 => self.pan.set_panning(Panning((x * 1.7 - 0.9) as f32), t),
+			_ => self.delay.set_feedback(Decibels(-(x * 18.0) as f32), t),
+		}
+	}
+	fn mgr(&mut self) -> &mut Mgr {
+		&mut self.mgr
+	}
+}
+fn check_next(s: &mut Session, name: &str, mk: &dyn Fn() -> Box<dyn Scene>, pat: &Pattern, kinds: &[&'static str]) {
+	let (term, _) = pattern_term(kinds.len(), pat);
+	let a = run_pattern(mk, pat);
+	let none: Pattern = pat.iter().map(|_| vec![]).collect();
+	let n = run_pattern(mk, &none);
+	let Some(fc) = pat.iter().position(|b| !b.is_empty()) else { return };
+	let fd = (0..a.len()).find(|j| a[*j] != n[*j]);
+	s.eval_only("w_next_callback");
+	if fd != Some(fc) {
+		s.fail(
+			format!("scene {name} (noise through a delay with feedback effects [volume control -3 dB, low-pass 123 Hz, panning 0.2], feedback -3 dB, mix 0.5) kinds {:?}: {}; first commands {:?}", kinds, term, pat[fc].iter().map(|(k, id)| format!("{}#{id}", kinds[*k])).collect::<Vec<_>>()),
+			format!(
+				"W-next: the first commands are issued before callback {} with values that differ from the builders'; against the command-free run the output must differ first in callback {}, it differs first in {}",
+				fc + 1,
+				fc + 1,
+				match fd {
+					Some(j) => format!("callback {}", j + 1),
+					None => format!("no callback at all ({} callbacks run): the commands were never applied", a.len()),
+				}
+			),
+			None,
+		);
+	}
+}
+
+fn part_w(s: &mut Session, args: &Args, covered: &mut BTreeSet<String>) {
+	let c = |iv: usize, kind: u8, id: i64, dur_ms: u64, silence: bool| WCmd { iv, kind, id, dur_ms, silence };
+	// ---- directed, independent of args.seed ----
+	let directed: Vec<WaitCase> = vec![
+		// a fade to silence that is over long before the sound starts
+		WaitCase { clock: false, sub: false, wait_ms: 96, cmds: vec![c(1, 0, 3, 30, true)], callbacks: 14 },
+		// an instant setter before the very first callback
+		WaitCase { clock: false, sub: false, wait_ms: 48, cmds: vec![c(0, 0, 7, 0, false)], callbacks: 9 },
+		WaitCase { clock: false, sub: false, wait_ms: 60, cmds: vec![c(2, 1, 11, 0, false)], callbacks: 10 },
+		WaitCase { clock: false, sub: false, wait_ms: 72, cmds: vec![c(1, 2, 5, 14, false)], callbacks: 11 },
+		WaitCase { clock: true, sub: false, wait_ms: 50, cmds: vec![c(1, 0, 9, 0, false)], callbacks: 10 },
+		WaitCase { clock: true, sub: true, wait_ms: 80, cmds: vec![c(0, 1, 2, 21, false), c(2, 2, 4, 7, false)], callbacks: 12 },
+		// bursts: the last of each kind is the value the sound starts with
+		WaitCase { clock: false, sub: true, wait_ms: 84, cmds: vec![c(1, 0, 1, 7, false), c(1, 1, 2, 0, false), c(1, 0, 3, 14, false), c(3, 0, 6, 0, false)], callbacks: 12 },
+	];
+	for (i, w) in directed.iter().enumerate() {
+		check_wait(s, w, &format!("d{i}"));
+	}
+	let directed_shift: Vec<ShiftCase> = vec![
+		// a 60 ms fade-out issued 36 ms before the start: the sound comes in at 40 % of the fade
+		ShiftCase { wait_ms: 60, cmds: vec![c(2, 0, 3, 60, true)], callbacks: 12 },
+		ShiftCase { wait_ms: 48, cmds: vec![c(1, 0, 20, 80, false)], callbacks: 14 },
+		ShiftCase { wait_ms: 48, cmds: vec![c(0, 2, 27, 90, false), c(2, 0, 10, 50, false)], callbacks: 14 },
+	];
+	for (i, w) in directed_shift.iter().enumerate() {
+		check_shift(s, w, &format!("d{i}"));
+	}
+	type MkF = fn() -> Box<dyn Scene>;
+	let fb: [(&str, MkF); 3] = [("fbfx0", || Box::new(FbFxSc::new(0))), ("fbfx1", || Box::new(FbFxSc::new(1))), ("fbfx2", || Box::new(FbFxSc::new(2)))];
+	let kinds = FbFxSc::new(2).kinds();
+	for (name, mk) in fb.iter() {
+		let mkb = move || mk();
+		let mut id = 0;
+		for k in 0..kinds.len() {
+			for first in [0usize, 2] {
+				// one command of the kind, then a burst two intervals later
+				let mut pat: Pattern = vec![vec![]; 5];
+				id += 1;
+				pat[first].push((k, id));
+				for _ in 0..3 {
+					id += 1;
+					pat[first + 2].push((k, id));
+				}
+				check_next(s, name, &mkb, &pat, &kinds);
+				check_scene(s, name, &mkb, &pat, &kinds, covered, 0);
+			}
+		}
+	}
+	// ---- seeded ----
+	let mut r = Rng::new(args.seed ^ 0xC07_0077);
+	let n = (if args.thorough { 400 } else { 60 }) * args.budget_mul;
+	for i in 0..n {
+		let clock = r.chance(1, 3);
+		let wait_ms = if clock { 10 * r.range(4, 12) as u64 } else { r.range(36, 130) as u64 };
+		let mut cmds = vec![];
+		let last_iv = ((wait_ms as usize).saturating_sub(CB_FRAMES)) / CB_FRAMES; // iv * CB + CB <= wait
+		for iv in 0..last_iv {
+			if !r.chance(1, 3) {
+				continue;
+			}
+			for _ in 0..r.range(1, 3) {
+				let room = wait_ms - ((iv + 1) * CB_FRAMES) as u64;
+				let dur = if r.chance(1, 3) { 0 } else { r.below(room + 1) };
+				cmds.push(c(iv, r.below(3) as u8, r.range(0, 1000), dur, r.chance(1, 8)));
+			}
+		}
+		if cmds.is_empty() {
+			cmds.push(c(0, r.below(3) as u8, r.range(0, 1000), 0, false));
+		}
+		let w = WaitCase { clock, sub: r.chance(1, 3), wait_ms, cmds, callbacks: wait_ms as usize / CB_FRAMES + 5 };
+		check_wait(s, &w, &format!("r{i}"));
+	}
+	for i in 0..n / 2 {
+		let wait_ms = r.range(24, 100) as u64;
+		let mut cmds = vec![];
+		for iv in 0..(wait_ms as usize / CB_FRAMES) {
+			if r.chance(1, 2) {
+				cmds.push(c(iv, if r.chance(1, 2) { 0 } else { 2 }, r.range(0, 1000), r.range(0, 150) as u64, r.chance(1, 8)));
+			}
+		}
+		if cmds.is_empty() {
+			cmds.push(c(0, 0, r.range(0, 1000), wait_ms + 30, false));
+		}
+		let w = ShiftCase { wait_ms, cmds, callbacks: wait_ms as usize / CB_FRAMES + 8 };
+		check_shift(s, &w, &format!("r{i}"));
+	}
+	let reps = (if args.thorough { 30 } else { 8 }) * args.budget_mul;
+	for (name, mk) in fb.iter() {
+		let mkb = move || mk();
+		for _ in 0..reps {
+			let nk = r.range(1, 3) as usize;
+			let mut pick: Vec<usize> = vec![];
+			while pick.len() < nk {
+				let k = r.below(kinds.len() as u64) as usize;
+				if !pick.contains(&k) {
+					pick.push(k);
+				}
+			}
+			let mut id = r.range(0, 20);
+			let iv = r.range(3, 6) as usize;
+			let pat = gen_pattern(&mut r, &pick, iv, &mut id);
+			check_next(s, name, &mkb, &pat, &kinds);
+			check_scene(s, name, &mkb, &pat, &kinds, covered, 0);
 		}
 	}
 }
